@@ -255,20 +255,20 @@ func BuildUDP(src, dst netip.Addr, sport, dport uint16, payload []byte) []byte {
 
 // L4 is a decoded transport header.
 type L4 struct {
-	Proto            uint8
+	Proto              uint8
 	ICMPType, ICMPCode uint8
-	ICMPRest         [4]byte
-	ICMPID, ICMPSeq  uint16 // echo / echo reply
-	SrcPort, DstPort uint16
-	Seq, Ack         uint32
-	Flags            uint8
-	DataOff          int
-	Window           uint16
-	TCPOptions       []byte
-	UDPLen           uint16
-	Body             []byte // ICMP body after the 8-byte header, TCP/UDP payload
-	CsumOK           bool
-	Complete         bool // the full transport header was present
+	ICMPRest           [4]byte
+	ICMPID, ICMPSeq    uint16 // echo / echo reply
+	SrcPort, DstPort   uint16
+	Seq, Ack           uint32
+	Flags              uint8
+	DataOff            int
+	Window             uint16
+	TCPOptions         []byte
+	UDPLen             uint16
+	Body               []byte // ICMP body after the 8-byte header, TCP/UDP payload
+	CsumOK             bool
+	Complete           bool // the full transport header was present
 }
 
 // DecodeL4 decodes the transport header found in ip.Payload. It never fails on short input:
